@@ -13,8 +13,10 @@ use quil_rs::instruction::{
     UnresolvedCallArgument,
 };
 use quil_rs::program::type_check::type_check;
+use quil_rs::quil::Quil;
 use quil_rs::Program;
-use qvh::lexwire::{all_strings, lex_case};
+use qvh::instrgen::{self, Alpha};
+use qvh::lexwire::{all_strings, lex_case, lex_out};
 use qvh::*;
 use std::str::FromStr;
 
@@ -329,6 +331,24 @@ fn mutate(rng: &mut Rng, s: &str) -> String {
     cs.into_iter().collect()
 }
 
+/// Render stream: the text the REAL printer writes for a generated program, with the real lexer's tokens;
+/// the driver checks that the text is a gap layout of those tokens within the domain of the render theorem
+/// (lean/QV/Shared/RenderLemmas.lean) and that the canonical re-rendering lexes back to the same tokens.
+fn render_case(ctx: &mut Ctx, text: &str) {
+    let t = text.to_string();
+    ctx.case(tagged("render", vec![st(text)]), move || lex_out(&t));
+}
+
+fn render_alpha() -> Alpha {
+    Alpha {
+        regions: ["ro", "Theta", "a-b", "x_1", "i2"].iter().map(|s| s.to_string()).collect(),
+        qubits: vec![Qubit::Fixed(0), Qubit::Fixed(17), Qubit::Variable("q".to_string()), Qubit::Variable("Q-1".to_string())],
+        frame_names: ["rf", "a \"b\"", "x\\y"].iter().map(|s| s.to_string()).collect(),
+        externs: ["f", "G-h"].iter().map(|s| s.to_string()).collect(),
+        expr_depth: 3,
+    }
+}
+
 fn main() {
     main_with(run)
 }
@@ -390,6 +410,27 @@ fn run(ctx: &mut Ctx) {
     for a in ["q20_q27_xy", "Ab-1", "pi", "I"] {
         for b in ["sqrtiSWAP", "x-Y", "SIN", "i"] {
             wf_case(ctx, a, b);
+        }
+    }
+    // 6. render stream: real printer output of generated instructions and programs
+    {
+        let alpha = render_alpha();
+        let mut rr = ctx.rng(9);
+        for v in instrgen::VARIANTS {
+            for _ in 0..(if quick { 6 } else { 150 }) {
+                let i = instrgen::gen_variant(&mut rr, &alpha, v, 2);
+                if let Ok(text) = i.to_quil() {
+                    render_case(ctx, &text);
+                }
+            }
+        }
+        for _ in 0..(if quick { 300 } else { 20_000 }) {
+            let n = 1 + rr.below(5);
+            let is: Vec<Instruction> = (0..n).map(|_| instrgen::any_instruction(&mut rr, &alpha, 1)).collect();
+            let p = Program::from_instructions(is);
+            if let Ok(text) = p.to_quil() {
+                render_case(ctx, &text);
+            }
         }
     }
     // 5. random identifiers, valid and mutated
